@@ -249,3 +249,159 @@ def run_job(job):
     if kind == "disp":
         return rec_disp(a)
     raise ValueError(kind)
+
+
+# ====================================================================== growth: from_environ round trip, bind_to_environ
+def gen_envrt(rng: random.Random):
+    c = gen_env(rng)
+    if rng.random() < 0.5:   # decoded PATH_INFO / SCRIPT_NAME with characters that are URL syntax
+        extra = rng.choice(["%3F", "%23", "%2541", "%25", "%09", "%0A", "%3Fa=b", ";p=1", "%2F", "%C3%A9", "%2520"])
+        c["path"] = c["path"].rstrip("/") + "/" + extra + rng.choice(["", "x", "/y"])
+    c["root"] = rng.choice(["", "", "/app", "/app/", "/äpp/v1", "/a b", "/a%3Fb", "/r%2541", "/a%23", "/a;b=c", "/100%", "/x%09y"])
+    c["method"] = rng.choice(["GET", "GET", "POST", "PUT", "DELETE", "PATCH"])
+    c["headers"] = rng.choice([[], [["X-One", "1"]], [["X-Multi", "a"], ["X-Multi", "b"]], [["Cookie", "a=b"], ["Cookie", "c=d"]],
+                               [["Accept-Language", "de, en;q=0.5"], ["X-Ünï", "x"]][:1], [["User-Agent", "t/1"], ["X-One", "é"]]])
+    c["body"] = rng.choice(["none", "none", "form", "formmulti", "json", "raw", "file"]) if c["method"] != "GET" else "none"
+    c["flags"] = [rng.random() < 0.5, rng.random() < 0.3, rng.random() < 0.2]
+    return c
+
+
+def gen_bind(rng: random.Random):
+    c = gen_env(rng)
+    c["root"] = rng.choice(["", "", "/app", "/äpp/v1", "/a b", "/a%3Fb"])
+    c["hm"] = rng.random() < 0.25
+    hu, ha = c["hostU"], c["hostA"]
+    port = c["port"]
+    cands = [None, None, ha, hu, ha.upper(), "example.org", "com", ha + (":" + port if port else ""), ha + ":80", ha + ":443", ha + ":8080"]
+    if "." in ha and not ha.startswith("["):
+        parent = ha.split(".", 1)[1]
+        cands += [parent, parent, parent.upper(), parent + (":" + port if port else ""), "x." + ha]
+    c["arg"] = rng.choice(cands)
+    c["ws"] = rng.random() < 0.15
+    return c
+
+
+def _env_view(env, sfx, body):
+    flags = [bool(env.get("wsgi.multithread")), bool(env.get("wsgi.multiprocess")), bool(env.get("wsgi.run_once"))]
+    hdrs = sorted([cps(k), cps(v)] for k, v in env.items() if k.startswith("HTTP_") and k != "HTTP_HOST")
+    v = {"pi": cps(env.get("PATH_INFO", "")), "sn": cps(env.get("SCRIPT_NAME", "")), "qs": cps(env.get("QUERY_STRING", "")),
+         "host": cps(env.get("HTTP_HOST", "")), "sname": cps(env.get("SERVER_NAME", "")), "sport": cps(str(env.get("SERVER_PORT", ""))),
+         "scheme": cps(env.get("wsgi.url_scheme", "")), "meth": cps(env.get("REQUEST_METHOD", "")),
+         "ctype": cps(env.get("CONTENT_TYPE", "")), "clen": cps(str(env.get("CONTENT_LENGTH", ""))), "hdrs": hdrs,
+         "body": list(body), "flags": flags}
+    return {k + sfx: x for k, x in v.items()}
+
+
+_EMPTY_VIEW = {"pi": [], "sn": [], "qs": [], "host": [], "sname": [], "sport": [], "scheme": [], "meth": [], "ctype": [], "clen": [],
+               "hdrs": [], "body": [], "flags": [False, False, False]}
+
+
+def _builder_kwargs(c):
+    import io
+
+    from werkzeug.datastructures import MultiDict
+
+    host = c["hostA"] if c["use_ascii_host"] else c["hostU"]
+    base = f"{c['scheme']}://{host}{':' + c['port'] if c['port'] else ''}{c['root']}/"
+    given = MultiDict([tuple(p) for p in c["pairs"]])
+    kw = {"path": c["path"], "base_url": base, "query_string": given, "method": c.get("method", "GET"),
+          "headers": [tuple(h) for h in c.get("headers", [])]}
+    body = c.get("body", "none")
+    if body == "form":
+        kw["data"] = {"a": "b", "é": "ü &="}
+    elif body == "formmulti":
+        kw["data"] = MultiDict([("a", "1"), ("a", "2"), ("b", "")])
+    elif body == "json":
+        kw["json"] = {"a": [1, 2, "é"]}
+    elif body == "raw":
+        kw["data"] = b"\x00raw\xffbytes"
+        kw["content_type"] = "application/octet-stream"
+    elif body == "file":
+        kw["data"] = {"f": (io.BytesIO(b"file\r\ncontent"), "n.txt"), "a": "b"}
+    fl = c.get("flags", [False, False, False])
+    kw.update(multithread=fl[0], multiprocess=fl[1], run_once=fl[2])
+    return kw, given
+
+
+def _read_body(env):
+    s = env["wsgi.input"]
+    pos = s.tell()
+    data = s.read()
+    s.seek(pos)
+    return data
+
+
+def rec_envrt(c: dict) -> dict:
+    from werkzeug.test import EnvironBuilder
+
+    ln = {"op": "envrt", "path": cps(c["path"]), "root": cps(c["root"]), "scheme": cps(c["scheme"]), "hostU": cps(c["hostU"]),
+          "hostA": cps(c["hostA"]), "port": cps(c["port"]), "err1": "", "err2": ""}
+    v1 = {k + "1": v for k, v in _EMPTY_VIEW.items()}
+    v2 = {k + "2": v for k, v in _EMPTY_VIEW.items()}
+    given = []
+    b = b2 = None
+    try:
+        kw, given = _builder_kwargs(c)
+        try:
+            b = EnvironBuilder(**kw)
+            e1 = b.get_environ()
+            v1 = _env_view(e1, "1", _read_body(e1))
+        except Exception as ex:
+            ln["err1"] = type(ex).__name__
+        if not ln["err1"]:
+            try:
+                b2 = EnvironBuilder.from_environ(e1)
+                e2 = b2.get_environ()
+                v2 = _env_view(e2, "2", _read_body(e2))
+            except Exception as ex:
+                ln["err2"] = type(ex).__name__
+    finally:
+        for x in (b2, b):
+            if x is not None:
+                x.close()
+    ln["pairs"] = [[cps(k), cps(v)] for k, v in (given.items(multi=True) if hasattr(given, "items") else [])]
+    ln.update(v1)
+    ln.update(v2)
+    return ln
+
+
+def rec_bind(c: dict) -> dict:
+    import warnings
+
+    from werkzeug.routing import Map, Rule
+    from werkzeug.test import EnvironBuilder
+
+    ln = {"op": "bind", "path": cps(c["path"]), "root": cps(c["root"]), "scheme": cps(c["scheme"]), "hostU": cps(c["hostU"]),
+          "hostA": cps(c["hostA"]), "port": cps(c["port"]), "hm": bool(c["hm"]), "arg": [-2] if c["arg"] is None else cps(c["arg"]),
+          "ws": bool(c["ws"]), "err": "", "warned": False, "sub": [], "sname": [], "uscheme": [], "script": [], "pinfo": [],
+          "qargs": [], "whost": []}
+    given = []
+    b = None
+    try:
+        kw, given = _builder_kwargs(c)
+        if c["ws"]:
+            kw["headers"] = [("Connection", "keep-alive, Upgrade"), ("Upgrade", "WebSocket")]
+        b = EnvironBuilder(**kw)
+        env = b.get_environ()
+        m = Map([Rule("/", endpoint="i", host="<h>") if c["hm"] else Rule("/", endpoint="i")], host_matching=bool(c["hm"]))
+        with warnings.catch_warnings(record=True) as w:
+            warnings.simplefilter("always")
+            a = m.bind_to_environ(env, server_name=c["arg"])
+        from werkzeug.wsgi import get_host
+        q = a.query_args
+        ln.update(warned=any("doesn't match configured" in str(x.message) for x in w),
+                  sub=[-2] if a.subdomain is None else cps(a.subdomain), sname=cps(a.server_name), uscheme=cps(a.url_scheme),
+                  script=cps(a.script_name), pinfo=cps(a.path_info), qargs=cps(q if isinstance(q, str) else repr(q)),
+                  whost=cps(get_host(env).lower()))
+    except Exception as ex:
+        ln["err"] = type(ex).__name__
+    finally:
+        if b is not None:
+            b.close()
+    ln["pairs"] = [[cps(k), cps(v)] for k, v in (given.items(multi=True) if hasattr(given, "items") else [])]
+    return ln
+
+
+def run_job2(job):
+    kind, a = job
+    return rec_envrt(a) if kind == "envrt" else rec_bind(a)
